@@ -4,6 +4,7 @@ From Coq Require Import List NArith ZArith Bool Lia.
 Import ListNotations.
 From JB Require Import Constants Bytes Utf8 Num Value Codec Order OrderProofs CodecProofs RoundtripProofs TreeOps JsonText Dispatch
   DispatchProofs TreeWf TreeWf2 Walk WalkProofs Iter IterProofs Builder BuilderProofs EditWalk2.
+From JB Require I32.
 Open Scope N_scope.
 Set Default Timeout 120.
 
@@ -778,10 +779,12 @@ Proof.
   intros Hw Hrec. destruct (wf_arr l Hw) as [Hall Hn]. destruct (arr_hdr_facts l Hn) as (_ & _ & HL).
   assert (Hsz : Forall (fun v => wf_size v = true) l) by (eapply Forall_impl; [|exact Hall]; intros c Hc; apply wfb_size; exact Hc).
   destruct ks as [|[i|n|n] r]; try reflexivity.
-  cbn [del_keypath del_arr]. rewrite HL, lenZ_lenN. unfold resolve.
-  set (j := (if (i <? 0)%Z then (lenZ l + i)%Z else i)).
-  destruct ((j <? 0) || (lenZ l <=? j))%Z eqn:C; [reflexivity|].
-  assert (Hj : (0 <= j < lenZ l)%Z) by lia.
+  cbn [del_keypath del_arr]. rewrite HL, lenZ_lenN.
+  (* the byte walker resolves and tests the index by the same function as the Value walker (I32.v, generated formulas) *)
+  rewrite <- I32.DKP_RESOLVE_text_eq_bytes, <- I32.DKP_SKIP_text_eq_bytes.
+  set (j := DKP_T_RESOLVE i (lenZ l)).
+  destruct (DKP_T_SKIP j (lenZ l)) eqn:C; [reflexivity|].
+  assert (Hj : (0 <= j < lenZ l)%Z) by (apply I32.DKP_T_SKIP_in_bounds; exact C).
   destruct (nth_opt_some l (Z.to_nat j)) as [x Hx]; [unfold lenZ in Hj; lia|].
   destruct (nth_opt_split l _ x Hx) as (pre & post & El & Lp & _).
   rewrite <- (app_nil_r (payload (VArr l))), (iterate_array_arr _ _ l [] _ Hsz Hn).
@@ -1110,8 +1113,8 @@ Proof.
   pose proof (wfb_size v Hw) as Hs.
   destruct v as [|b|s|nm|l|o]; try discriminate H; destruct ks as [|k r]; try discriminate H.
   - destruct k as [i|n|n]; try discriminate H.
-    set (j := resolve i (lenZ l)) in *.
-    destruct ((j <? 0) || (lenZ l <=? j))%Z eqn:C; [discriminate H|].
+    set (j := DKP_T_RESOLVE i (lenZ l)) in *.
+    destruct (DKP_T_SKIP j (lenZ l)) eqn:C; [discriminate H|]. apply I32.DKP_T_SKIP_in_bounds in C.
     destruct (nth_opt_some l (Z.to_nat j)) as [x Hx]; [unfold lenZ in C; lia|].
     destruct (nth_opt_split l _ x Hx) as (pre & post & El & Lp & _).
     pose proof (wf_size_arr l Hs) as Hall. destruct (wf_arr l Hw) as [Hallw _].
